@@ -109,3 +109,39 @@ def assigned_dict_name(fnode, k: int = 0) -> str:
         if isinstance(m, ast.Assign) and len(m.targets) == 1 and isinstance(m.targets[0], ast.Subscript) and isinstance(m.targets[0].value, ast.Name):
             return m.targets[0].value.id
     raise Untranslatable(f"role assigned_dict_name({k}) not found")
+
+
+def assigned_from_listcomp(fnode, k: int = 0) -> str:
+    """the local name assigned from the k-th list comprehension (source order)"""
+    hits = []
+    for n in ast.walk(fnode):
+        if isinstance(n, ast.Assign) and isinstance(n.value, ast.ListComp) and len(n.targets) == 1 and isinstance(n.targets[0], ast.Name):
+            hits.append((n.lineno, n.targets[0].id))
+    hits.sort()
+    if k >= len(hits):
+        raise Untranslatable(f"role assigned_from_listcomp({k}) not found")
+    return hits[k][1]
+
+
+def unpack_targets_from_call(fnode, callee: str, k: int = 0) -> list[str]:
+    """the names a, b of `a, b = <x>.callee(...)` (k-th such statement)"""
+    hits = []
+    for n in ast.walk(fnode):
+        if (isinstance(n, ast.Assign) and len(n.targets) == 1 and isinstance(n.targets[0], ast.Tuple) and isinstance(n.value, ast.Call)
+                and isinstance(n.value.func, ast.Attribute) and n.value.func.attr == callee
+                and all(isinstance(e, ast.Name) for e in n.targets[0].elts)):
+            hits.append((n.lineno, [e.id for e in n.targets[0].elts]))
+    hits.sort()
+    if k >= len(hits):
+        raise Untranslatable(f"role unpack_targets_from_call({callee},{k}) not found")
+    return hits[k][1]
+
+
+def diagnostic_joins(fnode) -> tuple:
+    """source text of the `<sep>.join(<generator expression>)` calls of a function (strings are atoms: the result is an opaque string)"""
+    out = []
+    for n in ast.walk(fnode):
+        if (isinstance(n, ast.Call) and isinstance(n.func, ast.Attribute) and n.func.attr == "join" and len(n.args) == 1
+                and isinstance(n.args[0], ast.GeneratorExp)):
+            out.append(ast.unparse(n))
+    return tuple(out)
